@@ -53,6 +53,27 @@ def reset_digest(message: Message) -> Message:
     return output
 
 
+def received_bytes_without_digest(
+    message: Message, auth_params: bytes
+) -> bytes:
+    """
+    Return the bytes of an incoming message with the digest replaced by 12
+    zero-octets (see https://tools.ietf.org/html/rfc3414#section-6.3.2).
+
+    The digest must be calculated over the message *as it was received*.
+    Re-encoding the decoded message may change the encoding of lengths which
+    is valid BER but changes the digest. If the received bytes are not
+    available the message is re-encoded as fallback.
+    """
+    raw = message.raw_bytes
+    params_offset = raw.find(message.security_parameters) if raw else -1
+    digest_offset = message.security_parameters.rfind(auth_params)
+    if params_offset < 0 or digest_offset < 0 or len(auth_params) != 12:
+        return bytes(reset_digest(message))
+    start = params_offset + digest_offset
+    return raw[:start] + b"\x00" * 12 + raw[start + 12 :]
+
+
 class USMError(SnmpError):
     """
     Generic exception for errors cased by the USM module
@@ -339,10 +360,12 @@ def verify_authentication(
         )
 
     auth_method = auth.create(credentials.auth.method)
-    without_digest = reset_digest(message)
+    without_digest = received_bytes_without_digest(
+        message, security_params.auth_params
+    )
     is_authentic = auth_method.authenticate_incoming_message(
         credentials.auth.key,
-        bytes(without_digest),
+        without_digest,
         security_params.auth_params,
         security_params.authoritative_engine_id,
     )
